@@ -125,12 +125,20 @@ def run_shard_main(prop, tier, seed, shard, nshards, budget_s, out_path):
                 ctx.evaluations += 1
                 try:
                     mod.run_case(ctx, case)
-                except Exception:  # harness failure is not a verdict
-                    ctx.count("harness_errors")
-                    ctx.violations.setdefault("HARNESS-ERROR", []).append(
-                        {"msg": traceback.format_exc()[-1500:], "case": case, "witness": None})
-                    ctx.vcount["HARNESS-ERROR"] = ctx.vcount.get("HARNESS-ERROR", 0) + 1
-                    if ctx.vcount["HARNESS-ERROR"] > 3:
+                except Exception as e:
+                    # an exception that escapes a scenario: raised inside the library by a call
+                    # the scenario expects to succeed -> an observation about the library; raised
+                    # by the harness itself -> no verdict (the run ends inconclusive)
+                    tb = traceback.extract_tb(e.__traceback__)
+                    repo_dir = os.path.realpath(os.environ.get("VERIF_REPO", "/repo"))
+                    in_lib = bool(tb) and os.path.realpath(tb[-1].filename).startswith(repo_dir + os.sep)
+                    key = ("library-raised/%s" % type(e).__name__) if in_lib else "HARNESS-ERROR"
+                    ctx.count("harness_errors" if not in_lib else "library_exceptions")
+                    lst = ctx.violations.setdefault(key, [])
+                    if len(lst) < 3:
+                        lst.append({"msg": traceback.format_exc()[-1500:], "case": case, "witness": None})
+                    ctx.vcount[key] = ctx.vcount.get(key, 0) + 1
+                    if ctx.vcount[key] > 3 and not in_lib:
                         break
     except Exception:
         ctx.violations.setdefault("HARNESS-ERROR", []).append(
@@ -253,6 +261,7 @@ def finish(prop, mod, tier, seed, results, crashed, wall, nshards):
     lines = []
     new_keys = []
     known_hit = []
+    harness_broken = False
     for key in sorted(violations):
         wit = violations[key][0]
         path = os.path.join(replay_dir, "%s-%s.json" % (prop, key.replace("/", "_")))
@@ -260,7 +269,11 @@ def finish(prop, mod, tier, seed, results, crashed, wall, nshards):
             json.dump({"property": prop, "key": key, "tier": tier, "seed": seed,
                        "count": vcount.get(key, 0), "witnesses": violations[key][:3]},
                       f, indent=1, default=_json_default)
-        if key in known:
+        if key == "HARNESS-ERROR":
+            harness_broken = True
+            lines.append("HARNESS-ERROR property=%s (no verdict) %s: %s" % (
+                prop, path, (wit["msg"] or "")[-400:].replace("\n", " | ")))
+        elif key in known:
             known_hit.append(key)
             lines.append("KNOWN-FINDING: property=%s key=%s %s (seen %d times; e.g. %s)"
                          % (prop, key, known[key]["what"], vcount.get(key, 0),
@@ -274,7 +287,7 @@ def finish(prop, mod, tier, seed, results, crashed, wall, nshards):
                 (wit["msg"] or "")[:600].replace("\n", " | ")))
     required = getattr(mod, "REQUIRED", {})
     starved = [c for c, n in required.items() if clauses.get(c, 0) < n]
-    inconclusive = bool(crashed) or bool(starved) or not results
+    inconclusive = bool(crashed) or bool(starved) or not results or harness_broken
     distinct = len(sigs)
     coverage = {
         "evaluations": max(evaluations, stats.get("evaluations", 0)),
